@@ -682,6 +682,34 @@ def inv_of_dump(raw):
     return None
 
 
+def _copy_into_itself(req, impl):
+    """lexical test (cwd from the dump): the destination of a copy lies at or below its source"""
+    import posixpath
+    try:
+        a = req.split(' ')
+        src, dst = unhx(a[1]), unhx(a[2])
+        cwd = bytes.fromhex(impl.split(' ## ', 1)[1].split('|')[0].split(' ')[1]).decode('utf8', 'replace')
+        def ab(p):
+            for pr in ('file://', 'ftp://', 'http://', 'https://'):
+                if p.startswith(pr):
+                    p = p[len(pr):]
+            return posixpath.normpath(posixpath.join(cwd, p)).replace('//', '/')
+        s_, d_ = ab(src), ab(dst)
+        return d_ == s_ or s_ == '/' or d_.startswith(s_ + '/')
+    except Exception:
+        return False
+
+
+def _only_link_kinds_differ(a, b):
+    """two state dumps differ only in the d/f/files fields of link entries"""
+    import re
+    ea, eb = a.split(' ## ', 1)[-1].split('|'), b.split(' ## ', 1)[-1].split('|')
+    if len(ea) != len(eb):
+        return False
+    strip = lambda x: re.sub(r' d=[01] f=[01] l=1 ', ' l=1 ', re.sub(r' files=\S+$', '', x)) if ' l=1 ' in x else x
+    return all(x == y or strip(x) == strip(y) for x, y in zip(ea, eb))
+
+
 UNORDERED_OPS = ('entries', 'chown_b', 'chown', 'copy_b', 'copy', 'chmod_b', 'chmod', 'mkfile_m')
 
 
@@ -710,6 +738,10 @@ def cmp_line(req, impl, model):
     follow = (op == 'copy_b' and a[5] == '1') or (op in ('chown_b', 'chmod_b') and a[4] == '1') or (op == 'entries' and a[5] == '1')
     if follow and io.startswith('err') and mo.startswith('err'):
         return 'dead'
+    if op in ('copy', 'copy_b') and io == mo and io.startswith('ok') and _only_link_kinds_differ(impl, model):
+        return 'dead'    # a copied link gets its kind from whether its target exists at that moment: order-dependent when the target is created by the same copy
+    if op in ('copy', 'copy_b') and io == mo and _copy_into_itself(req, impl):
+        return 'dead'    # copying a directory into its own subtree reads entries the same call creates: the result depends on the iteration order
     if op == 'move_p' and 'hang' in (io, mo) and all(x == 'hang' or x == 'crash' or x.startswith('err') for x in (io, mo)):
         return 'dead'    # moving a directory into its own subtree: hang or error depending on child order
     if op == 'entries' and io.startswith('ok t:') and mo.startswith('ok t:'):
